@@ -6,6 +6,7 @@ per-bit provenance (B), intervals with an exactness flag (I) and affine forms (F
 Nothing is executed: every function below manipulates abstract values only.
 """
 import itertools
+import re
 from domains import (
     Lin, band, bor, bxor, bnot, bdeps, bdep, bjoin, bits_const, bits_atom, bits_known,
     bits_all_deps, bits_dep_all, bits_carry_chain, bits_same,
@@ -1603,6 +1604,13 @@ class Interp:
         if callee is not None and cid not in self.P.opaque:
             if self.call_stack.count(callee["name"]) >= 2:
                 self.notes.append(f"recursion into {callee['name']} cut")
+                return self.havoc_call(st, args, dest_ty)
+            if "{closure" in callee["name"] and re.search(r"ops::Fn(Mut|Once)?<.*>>::call(_mut|_once)?$", (fref or {}).get("inst") or "") \
+                    and len(args) == 2 and args[1].kind == "agg" and callee["argc"] == 1 + len(args[1].fields):
+                # a direct call of a closure value goes through Fn*::call*(closure, (args,)): the body takes the arguments spread
+                args = [args[0]] + list(args[1].fields)
+            if callee["argc"] != len(args):
+                self.notes.append(f"{callee['name']}: called with {len(args)} arguments, takes {callee['argc']}")
                 return self.havoc_call(st, args, dest_ty)
             try:
                 rv = self.run_fn(callee, args, st)
